@@ -5,7 +5,7 @@
    scheduling program, every fuel, and both ways the loop can end (idle / stopped). *)
 From Coq Require Import List ZArith.
 Import ListNotations.
-From TV Require Import Lib.Obs C38.Model C38.Spec C38.Monitor C38.Run C38.DeadlineProofs C38.Proofs C38.Bounded.
+From TV Require Import Lib.Obs C38.Model C38.Spec C38.Monitor C38.Run C38.DeadlineProofs C38.Proofs C38.Bounded C38.ProofsP4 C38.ProofsP4b.
 Local Open Scope Z_scope.
 
 (* add_callback: at any end of the loop the callbacks that ran are a prefix of those scheduled, in
@@ -199,3 +199,20 @@ Theorem C38_call_soon_from_another_thread_would_strand_the_callback :
   forall a, let l := x_settle (x_add_via PCallSoon a x_idle) in x_ran l = [] /\ x_ready l = [a].
 Proof. exact call_soon_from_another_thread_is_not_delivered. Qed.
 Print Assumptions C38_call_soon_from_another_thread_would_strand_the_callback.
+
+(* phase 4: two conjuncts of check_case, each for ALL inputs (every program / run_sync call, every fuel, whichever way
+   the run ends): the monitors that check_case applies to the REAL loop's traces accept the model's own squashed
+   trace (trace_of = what run_case renders).  chk_cb = add_callback callbacks run once, in scheduling order, all of
+   them at idle; chk_to = timeouts run once, not before their deadline, never after remove_timeout, in requested-
+   deadline order (w.r.t. those scheduled before the iteration), and all run unless removed at idle. *)
+Theorem C38_add_callback_monitor_accepts_model_for_all_inputs :
+  forall c s0 fuel s e, init_of c = Some s0 -> run_loop fuel s0 = (s, e) -> e <> OutOfFuel ->
+    chk_cb (is_idle e) (trace_of s) = true.
+Proof. exact chk_cb_accepts_model. Qed.
+Print Assumptions C38_add_callback_monitor_accepts_model_for_all_inputs.
+
+Theorem C38_timeout_monitor_accepts_model_for_all_inputs :
+  forall c s0 fuel s e, init_of c = Some s0 -> run_loop fuel s0 = (s, e) -> e <> OutOfFuel ->
+    chk_to (is_idle e) (trace_of s) = true.
+Proof. exact chk_to_accepts_model. Qed.
+Print Assumptions C38_timeout_monitor_accepts_model_for_all_inputs.
